@@ -37,7 +37,7 @@ Obs(t, ids, o, fut, ver, r) ==
    hidx     |-> [h \in 0..(MaxH(t) + 1) |-> o.hidx[h + 1]],
    vidx     |-> {h \in 0..(MaxH(t) + 1) : o.vidx[h + 1]},
    headRec  |-> o.headRec,
-   addMark  |-> None, rmMark |-> None,
+   addMark  |-> None, rmMark |-> None, reorg |-> None,
    stateDisk |-> {i \in Ids0(t) : o.stateDisk[i + 1]},
    executed |-> {ids[i] : i \in {j \in 1..Len(ids) : o.executed[j]}},
    latest   |-> o.latest,
@@ -77,7 +77,7 @@ JudgeDeliver(e) ==
   IN  JudgeInv(tr, obs, e.state) \o
       Tag(NotLower(tr, obs.latest, pre.latest), "Inv.WeightMonotone") \o
       Tag(\A x \in removed : (TxsOf(tr, x) \ obs.executed) \subseteq obs.pending, "Inv.RemovedTxsPending") \o
-      Tag(~e.state.addMark /\ ~e.state.rmMark, "Model.MarksLeft") \o
+      Tag(~e.state.addMark /\ ~e.state.rmMark /\ ~e.state.reorgMark, "Model.MarksLeft") \o
       Tag(Ended(exp), "Model.diverges") \o
       Tag(e.res = exp.res, "Deliver.res") \o
       Tag(obs.hashDB = exp.hashDB, "Deliver.hashDB") \o
@@ -97,7 +97,7 @@ JudgeFork(e) ==
       removed == Canon(tr, ms) \ Canon(tr, obs)
   IN  JudgeInv(tr, obs, e.state) \o
       Tag(NotLower(tr, obs.latest, ms.latest), "Ext.WeightMonotone.fork-path") \o
-      Tag(~e.state.addMark /\ ~e.state.rmMark, "Model.MarksLeft") \o
+      Tag(~e.state.addMark /\ ~e.state.rmMark /\ ~e.state.reorgMark, "Model.MarksLeft") \o
       Tag(Ended(exp), "Model.diverges") \o
       Tag(obs.hashDB = exp.hashDB, "Fork.hashDB") \o
       Tag(obs.hidx = exp.hidx, "Fork.hidx") \o
@@ -122,7 +122,7 @@ JudgeRestart(e) ==
   IN  JudgeInv(tr, obs, e.state) \o
       Tag(\E o \in outcomes : Same(o, obs), "Crash.outcome-not-in-model") \o
       Tag(\E o \in outcomes : Same(o, obs) /\ o.cache = obs.cache, "Restart.cache") \o
-      Tag(~e.state.addMark /\ ~e.state.rmMark, "Model.MarksLeft") \o
+      Tag(~e.state.addMark /\ ~e.state.rmMark /\ ~e.state.reorgMark, "Model.MarksLeft") \o
       (IF obs.latest \in CrashHeadStrict(tr, cheads) THEN <<>>
        ELSE IF obs.latest \in CrashHeadWeak(tr, cheads) THEN <<"Crash.HeadStrict.ancestor-of-old-head">>
        ELSE <<"Crash.HeadNotAllowed">>)
